@@ -121,21 +121,51 @@ open IrisVerif.Dates (Err R)
 section Frame
 variable {S V : Type}
 
-theorem renamePairs_frame (T : List String) (pairs : List (String × String))
-    (hT : ∀ p ∈ pairs, p.1 ∈ T ∧ p.2 ∈ T) (db db' : Box S V) (h : renamePairs db pairs = .ok db') :
-    frame T db' = frame T db := by
-  induction pairs generalizing db with
-  | nil => simp [renamePairs, pure, Except.pure] at h; subst h; rfl
-  | cons p rest ih =>
-    obtain ⟨s, t⟩ := p
-    unfold renamePairs at h
-    cases hl : lookup db s with
+theorem popAll_frame (T : List String) (ns : List String) (hT : ∀ n ∈ ns, n ∈ T) (db db' : Box S V) (vs : List (Item S V))
+    (h : popAll db ns = .ok (db', vs)) : frame T db' = frame T db := by
+  induction ns generalizing db vs with
+  | nil => simp [popAll, pure, Except.pure] at h; rw [← h.1]
+  | cons n rest ih =>
+    unfold popAll at h
+    cases hl : lookup db n with
     | none => simp [hl, throw, throwThe, MonadExceptOf.throw] at h
     | some v =>
       simp only [hl] at h
-      have hs := (hT (s, t) (by simp)).1
-      have ht := (hT (s, t) (by simp)).2
-      rw [ih (fun q hq => hT q (List.mem_cons_of_mem _ hq)) _ h, frame_setKey ht, frame_delKey hs]
+      cases hr : popAll (delKey db n) rest with
+      | error e => simp [hr, bind, Except.bind] at h
+      | ok x =>
+        obtain ⟨d1, v1⟩ := x
+        simp [hr, bind, Except.bind, pure, Except.pure] at h
+        obtain ⟨rfl, _⟩ := h
+        rw [ih (fun q hq => hT q (List.mem_cons_of_mem _ hq)) _ _ hr, frame_delKey (hT n (by simp))]
+
+theorem assignAll_frame (T : List String) (l : List (String × Item S V)) (hT : ∀ p ∈ l, p.1 ∈ T) (db : Box S V) :
+    frame T (assignAll db l) = frame T db := by
+  unfold assignAll
+  induction l generalizing db with
+  | nil => rfl
+  | cons p rest ih =>
+    simp only [List.foldl_cons]
+    rw [ih (fun q hq => hT q (List.mem_cons_of_mem _ hq)), frame_setKey (hT p (by simp))]
+
+theorem renamePairs_frame (T : List String) (pairs : List (String × String))
+    (hT : ∀ p ∈ pairs, p.1 ∈ T ∧ p.2 ∈ T) (db db' : Box S V) (h : renamePairs db pairs = .ok db') :
+    frame T db' = frame T db := by
+  unfold renamePairs at h
+  cases hp : popAll db (pairs.map (·.1)) with
+  | error e => simp [hp, bind, Except.bind] at h
+  | ok x =>
+    obtain ⟨d1, vs⟩ := x
+    simp [hp, bind, Except.bind, pure, Except.pure] at h
+    subst h
+    rw [assignAll_frame, popAll_frame T _ _ db d1 vs hp]
+    · intro n hn
+      obtain ⟨p, hp', rfl⟩ := List.mem_map.mp hn
+      exact (hT p hp').1
+    · intro p hp'
+      have := (List.of_mem_zip hp').1
+      obtain ⟨q, hq, hqe⟩ := List.mem_map.mp this
+      rw [← hqe]; exact (hT q hq).2
 
 theorem removeNames_frame (T : List String) (ns : List String) (hT : ∀ n ∈ ns, n ∈ T) (db db' : Box S V)
     (h : removeNames db ns = .ok db') : frame T db' = frame T db := by
